@@ -127,7 +127,7 @@ def build_library(cfg):
         if os.path.basename(p) == "sp_ienv.c":
             cmd = cmd + ["-Dsp_ienv=sp_ienv_stock"]
         jobs.append((cmd, p, hd))
-    for p in sorted(glob.glob(os.path.join(REPO, "FORTRAN", "c_fortran_*.c"))):
+    for p in sorted(glob.glob(os.path.join(REPO, "FORTRAN", "c_fortran_*.c"))) + sorted(glob.glob(os.path.join(REPO, "EXAMPLE", "dreadtriple_noheader.c"))):
         jobs.append(([c["cc"]] + fl, p, hd))
     if not c["vendor"]:
         cfl = list(c["opt"]) + list(c["san"]) + ["-w", "-I" + os.path.join(REPO, "CBLAS")]
